@@ -361,6 +361,8 @@ with overflow checks. Outcome must be ok/err; `load` outcomes are also compared 
     {
         let amp = amplification_cases();
         for (k, (kind, case)) in amp.iter().enumerate() {
+            // the dev-profile build runs the stack probes only (resident set and time of an unoptimised build say nothing)
+            if cfg!(debug_assertions) && !kind.starts_with("deep-nesting") { continue; }
             let Some(_r) = c.case("amplify", k as u64) else { continue };
             c.nontrivial(case); c.evaluations += 1;
             let out = run_isolated("C04", &[case.clone()], 60_000, 16384).pop().unwrap_or_default();
